@@ -97,6 +97,8 @@ var ggSelected = []ggSel{
 	// outside the subset (loops over a slice of interface values / calls through an interface):
 	// ArrayDataSlab.CanLendToLeft/CanLendToRight, MapDataSlab.CanLendToLeft/CanLendToRight
 	// (m.elements.CanLendTo...), every Split/Merge/LendToRight/BorrowFromRight.
+	{"array_data_slab.go", "ArrayDataSlab", "Inlinable"},
+	{"array_metadata_slab.go", "ArrayMetaDataSlab", "Inlinable"},
 	{"array_data_slab.go", "ArrayDataSlab", "IsFull"},
 	{"array_data_slab.go", "ArrayDataSlab", "IsUnderflow"},
 	{"array_metadata_slab.go", "ArrayMetaDataSlab", "IsFull"},
